@@ -1312,6 +1312,9 @@ type Outcome struct {
 
 var runSeq int
 
+// TraceWanted: keep the (expensive) per-step schedule trace in runs that keep their history.
+var TraceWanted bool
+
 func shmDir() string {
 	base := os.Getenv("VERIF_TMP")
 	if base == "" {
@@ -1394,7 +1397,7 @@ func executeWith(t *testing.T, c *Case, prof *Profile, keepHist bool, pre func(*
 func (r *Run) bubble() {
 	r.startTime = time.Now()
 	e := NewEngine(r.c.Sched, r.c.Cfg.Groups)
-	e.KeepTrace = r.keepHist
+	e.KeepTrace = r.keepHist && TraceWanted
 	if v := os.Getenv("VERIF_DUMP_AT_STEP"); v != "" {
 		fmt.Sscanf(v, "%d", &e.DumpAtStep)
 	}
@@ -1473,7 +1476,11 @@ func (r *Run) bubble() {
 		}
 		return true
 	}
-	res := e.Run(done, 200000)
+	maxSteps := uint64(200000)
+	if v := os.Getenv("VERIF_MAXSTEPS"); v != "" {
+		fmt.Sscanf(v, "%d", &maxSteps)
+	}
+	res := e.Run(done, maxSteps)
 	stuck := false
 	if res.Deadlock {
 		r.violate([]string{"C38"}, "deadlock", "no goroutine can make progress and 90 simulated seconds changed nothing; parked: %s", res.Dump)
